@@ -6,6 +6,7 @@ import (
 
 	"golang.org/x/tools/go/ssa"
 
+	"tinkverif/bounds"
 	"tinkverif/consteval"
 	"tinkverif/core"
 	"tinkverif/guard"
@@ -120,6 +121,25 @@ func c04Recompute(c *Ctx) {
 						}
 					}
 				}
+			}
+			// the caller's tag takes part in the comparison up to its last byte: a slice of it
+			// with an upper bound is only acceptable where that bound is the tag's own length
+			for v := guard.Strip(fromTag); ; {
+				sl, isSl := v.(*ssa.Slice)
+				if !isSl {
+					break
+				}
+				if sl.High != nil {
+					cx := bounds.NewCtx(f)
+					facts := cx.FactsToLin(guard.InstrFacts(ins))
+					hi, ln := cx.Lin(sl.High), cx.LenOf(sl.X)
+					le, _ := cx.Entails(facts, ln.Add(hi, -1)) // hi <= len
+					ge, _ := cx.Entails(facts, hi.Add(ln, -1)) // hi >= len
+					if !(le && ge) {
+						bad = "the caller's tag is cut to a fixed size before it is compared: bytes after that size are ignored, so an extended tag verifies"
+					}
+				}
+				v = guard.Strip(sl.X)
 			}
 			if guard.CalleeName(&call.Call) == "bytes.Equal" {
 				bad = "tag compared with bytes.Equal (not constant time)"
